@@ -7,12 +7,14 @@
 // An op may carry a turn suffix "@n": it runs only when the global turn counter equals n
 // (sequential histories for C20).
 //   worker ops:       C create guard   D destroy guard   E re-read guard epoch   P scheduling point
+//                     I GetThreadID (+ heartbeat-at-reuse check)   H GetHeartBeat (recorded)
 //                     L GetProtectedEpochs (guard + list)   V verify list unchanged and alive
 //                     Q GetCurrentEpoch   N GetMinEpoch
 //   coordinator ops:  F one ForwardGlobalEpoch (interleaved)   B<n> n forwards as one indivisible
 //                     block (a long stall of the workers)   Q   N   G coordinator reads the list
 //                     through the public API
 #include "dbgroup/thread/epoch_manager.hpp"
+#include "dbgroup/thread/id_manager.hpp"
 #include "vshim_off.hpp"
 // ---- plain C++ ----
 #include <cinttypes>
@@ -26,6 +28,8 @@
 
 using dbgroup::thread::EpochGuard;
 using dbgroup::thread::EpochManager;
+using dbgroup::thread::IDManager;
+using HB = vshim::WeakPtr<size_t>;
 constexpr int kCap = DBGROUP_MAX_THREAD_NUM;
 constexpr size_t kInitial = EpochManager::kInitialEpoch;
 using Node = EpochManager::ProtectedNode;
@@ -134,6 +138,12 @@ struct Ghost {
   size_t max_nodes = 0;
   long dummy = 0;
   char results[kMaxT][96];
+  // heartbeats (C15 in the presence of the coordinator)
+  HB hb[kMaxT];
+  bool hb_used[kMaxT];
+  int hb_id[kMaxT];
+  int id_of[kMaxT];
+  bool body_done[kMaxT];
 } *GH;
 
 struct World {
@@ -379,6 +389,32 @@ Body(int tid)
         ++GH->stamp;
         break;
       }
+      case 'I': {  // learn the thread ID explicitly (C15: earlier heartbeats of this ID must be expired)
+        const bool first = GH->id_of[tid] < 0;
+        const size_t id = IDManager::GetThreadID();
+        vs::NoSchedule ns;
+        if (first && id < static_cast<size_t>(kCap)) {
+          for (int u = 0; u < static_cast<int>(PROG.th.size()); ++u) {
+            if (u == tid || !GH->hb_used[u] || GH->hb_id[u] != static_cast<int>(id)) continue;
+            if (!GH->hb[u].RawExpired()) {
+              vs::Violate("C15", "HEARTBEAT-ALIVE-AT-REUSE",
+                          Fmt("id %zu was given to T%d while the heartbeat handed out to its earlier owner T%d is not expired", id, tid, u));
+            }
+          }
+          GH->id_of[tid] = static_cast<int>(id);
+        }
+        break;
+      }
+      case 'H': {
+        HB h = IDManager::GetHeartBeat();
+        vs::NoSchedule ns;
+        if (h.RawExpired()) vs::Violate("C15", "HEARTBEAT-EXPIRED-EARLY", Fmt("T%d received an expired heartbeat", tid));
+        GH->hb[tid] = h;
+        GH->hb_used[tid] = true;
+        if (GH->id_of[tid] < 0) GH->id_of[tid] = static_cast<int>(IDManager::GetThreadID());
+        GH->hb_id[tid] = GH->id_of[tid];
+        break;
+      }
       case 'Q': {
         uint64_t start;
         {
@@ -471,6 +507,15 @@ Body(int tid)
     ++step;
   }
   vs::SetCall("script-end");
+  {
+    vs::NoSchedule ns;
+    // a heartbeat is not expired while its thread is still running user code
+    for (int u = 0; u < static_cast<int>(PROG.th.size()); ++u) {
+      if (GH->hb_used[u] && !GH->body_done[u] && GH->hb[u].RawExpired()) {
+        vs::Violate("C15", "HEARTBEAT-EXPIRED-EARLY", Fmt("the heartbeat of running thread T%d is expired (seen by T%d)", u, tid));
+      }
+    }
+  }
   if (guard) {
     {
       vs::NoSchedule ns;
@@ -482,6 +527,8 @@ Body(int tid)
     vs::NoSchedule ns;
     g.in_destroy = false;
   }
+  vs::NoSchedule ns2;
+  GH->body_done[tid] = true;
 }
 
 void
@@ -490,6 +537,12 @@ Setup()
   GH = new Ghost{};
   for (auto &c : GH->last_cur) c = 0;
   for (auto &r : GH->results) r[0] = 0;
+  for (int t = 0; t < kMaxT; ++t) {
+    GH->hb_used[t] = false;
+    GH->hb_id[t] = -1;
+    GH->id_of[t] = -1;
+    GH->body_done[t] = false;
+  }
   W = new World{};
   GH->baseline_blocks = vs::LiveBlocksTotal();
   W->mgr = new EpochManager{};
@@ -499,6 +552,11 @@ Setup()
 void
 Teardown()
 {
+  for (int u = 0; u < static_cast<int>(PROG.th.size()); ++u) {
+    if (GH->hb_used[u] && !GH->hb[u].RawExpired()) {
+      vs::Violate("C15", "HEARTBEAT-ALIVE-AFTER-EXIT", Fmt("the heartbeat of T%d is not expired although the thread has exited", u));
+    }
+  }
   delete W->mgr;
   W->mgr = nullptr;
   const size_t nodes = LiveNodes();
@@ -526,6 +584,10 @@ Digest()
     h = vs::Mix(h, (g.alive && GH->fwd_active && g.created_stamp < GH->fwd_start) ? 1 : 0);
     h = vs::Mix(h, GH->last_cur[t]);
     h = vs::Mix(h, std::hash<std::string_view>{}(GH->results[t]));
+  }
+  for (int t = 0; t < static_cast<int>(PROG.th.size()); ++t) {
+    h = vs::Mix(h, static_cast<uint64_t>(GH->id_of[t] + 1) * 8 + (GH->hb_used[t] ? 4U : 0U) + (GH->body_done[t] ? 2U : 0U) +
+                       ((GH->hb_used[t] && GH->hb[t].RawExpired()) ? 1U : 0U));
   }
   h = vs::Mix(h, (GH->fwd_active ? 1U : 0U) | (GH->fwd_quiet ? 2U : 0U));
   h = vs::Mix(h, static_cast<uint64_t>(GH->nmins));
@@ -647,6 +709,15 @@ Family(const std::string &f)
     } else if (kCap == 2) {
       with_prefixes("W0:C P D | W0:C P E P D | W0:C P E D | K:F F", {0, 255});
       with_prefixes("W0:C D | W0:C D | W0:C P E P D | K:F", {0});
+    }
+  } else if (f == "hb") {  // C15 with the coordinator scanning slots while threads exit and IDs are reused
+    if (kCap == 1) {
+      with_prefixes("W0:I H C P D | W0:I H C P D | K:F F", {0});
+      with_prefixes("W0:H I C D | W0:I H C P E D | K:F", {0, 255});
+      with_prefixes("W0:I H P | W0:I H C D | K:F F", {0});
+    } else if (kCap == 2) {
+      with_prefixes("W0:I H C D | W0:I H C D | W0:I H C P D | K:F F", {0});
+      with_prefixes("W0:I H C P D | W1:I H C D | K:F F", {0, 255});
     }
   } else if (f == "obs") {  // C16 observers
     with_prefixes("W0:Q N Q C Q D N Q | K:F F", {0, 254, 255});
